@@ -149,7 +149,10 @@ def gen_dynamic(rng, caps, per_cap):
             n = 0
             for _ in range(rng.randint(3, 20)):
                 r = rng.random()
-                if r < 0.55: lines.append("emplace %d" % rng.randrange(2 ** 31))
+                if r < 0.35: lines.append("emplace %d" % rng.randrange(2 ** 31))
+                elif r < 0.42: lines.append("append %d" % rng.randrange(2 ** 31))
+                elif r < 0.48: lines.append("appendmv %d" % rng.randrange(2 ** 31))
+                elif r < 0.58: lines.append("appendall " + " ".join(str(rng.randrange(2 ** 31)) for _ in range(rng.choice([0, 1, 2, 3, cap, max(0, cap - 1)]))))
                 elif r < 0.7: lines.append("get %d" % rng.randrange(cap + 1))
                 elif r < 0.78: lines.append("clear")
                 elif r < 0.88: lines.append("empty")
@@ -157,6 +160,12 @@ def gen_dynamic(rng, caps, per_cap):
             lines.append("iter")
             cases.append(lines)
         cases.append(["new %d" % cap] + ["emplace %d" % (i * 3 + 1) for i in range(cap + 1)] + ["iter", "empty", "clear", "iter", "empty"])
+        # batch appends that end exactly at capacity, and one below
+        for head in (0, 1, cap // 2):
+            if head <= cap:
+                cases.append(["new %d" % cap] + ["emplace %d" % (7 + i) for i in range(head)] + ["appendall " + " ".join(str(100 + i) for i in range(cap - head))] + ["iter", "empty"])
+                if cap - head >= 1:
+                    cases.append(["new %d" % cap] + ["emplace %d" % (7 + i) for i in range(head)] + ["appendall " + " ".join(str(100 + i) for i in range(cap - head - 1))] + ["append 5", "iter", "empty"])
     return cases
 
 
@@ -298,6 +307,16 @@ def oracle_dynamic(case, out):
                 items.append(int(w[1]))
                 if o != "i=%d n=%d" % (len(items) - 1, len(items)):
                     return "emplace returned %s expected i=%d n=%d" % (o, len(items) - 1, len(items))
+        elif w[0] in ("append", "appendmv"):
+            if len(items) < cap:
+                items.append(int(w[1]))
+                if o != "n=%d" % len(items):
+                    return "operator += (item): count is %s expected n=%d" % (o, len(items))
+        elif w[0] == "appendall":
+            if len(items) + len(w) - 1 <= cap:
+                items += [int(x) for x in w[1:]]
+                if o != "n=%d" % len(items):
+                    return "operator += (array of %d): count is %s expected n=%d" % (len(w) - 1, o, len(items))
         elif w[0] == "get":
             if int(w[1]) < len(items) and o != "v=%d" % items[int(w[1])]:
                 return "a[%s] is %s expected %d" % (w[1], o, items[int(w[1])])
